@@ -109,6 +109,22 @@ func (b *Batch) RunGenerators(pluginBin, self string) error {
 		if err := ioutil.WriteFile(cfgPath, []byte(y.YAML()), 0o644); err != nil {
 			return err
 		}
+	case "ok:eqpath", "ok:spacepath", "ok:relpath":
+		// the same file under a path that contains '=' / spaces (everything after the FIRST '=' of a parameter is its value),
+		// or named relative to the plugin's working directory
+		loc := map[string][2]string{"ok:eqpath": {"env=prod", "config.v=1.yaml"}, "ok:spacepath": {"my configs", "the config.yaml"},
+			"ok:relpath": {"rel", "config.yaml"}}[b.Case.YamlState]
+		sub, name := loc[0], loc[1]
+		if err := os.MkdirAll(filepath.Join(b.Dir, sub), 0o755); err != nil {
+			return err
+		}
+		cfgPath = filepath.Join(b.Dir, sub, name)
+		if err := ioutil.WriteFile(cfgPath, []byte(y.YAML()), 0o644); err != nil {
+			return err
+		}
+		if b.Case.YamlState == "ok:relpath" {
+			cfgPath = filepath.Join(sub, name)
+		}
 	case "blank:empty", "blank:comments", "blank:lines":
 		// a readable file without any YAML document: the configuration it describes is the empty one
 		text := map[string]string{"blank:empty": "", "blank:comments": "# generated configuration\n# (nothing set)\n", "blank:lines": "\n\n  \n"}[b.Case.YamlState]
